@@ -1,7 +1,7 @@
 (** The suite-string parser and the registry functions of suite_rfc6287.go as translated from the Go source
     (Generated/Src.v) compute what the hand-written model (Model/Suite.v) computes. *)
 From Coq Require Import ZifyN ZifyNat ZifyBool String.
-From OtpV Require Import Prelude Sha Tables GoSem Errors Decoder Derive Otp Ocra Utils Suite Src SrcLift SrcEqOcraV.
+From OtpV Require Import Prelude Sha Tables GoSem Errors Decoder Derive Otp Ocra Utils Suite Src SrcLift SrcTop SrcEqOcraV.
 Open Scope N_scope.
 Ltac Zify.zify_post_hook ::= Z.to_euclidean_division_equations.
 
@@ -218,4 +218,8 @@ Proof. unfold Src.SuiteConfigFromRaws, Suite.suite_config_from_raws, Src.lookup_
 
 Lemma lift_cfg_ok o c : lift_cfg o = Val (c, None) <-> o = Ok c.
 Proof. destruct o as [c'|e|]; cbn [lift_cfg]; split; intros H; try discriminate; inversion H; reflexivity. Qed.
+
+
+Lemma lift_cfg_returns o : o <> Panic -> returns (lift_cfg o).
+Proof. intros H. destruct o as [a|e|]; [eexists; reflexivity|eexists; reflexivity|congruence]. Qed.
 
